@@ -96,6 +96,9 @@ impl C09 {
             }
             (Err(e), false) => {
                 self.cov.probe("adapter_probe_unusable_rejected");
+                if refm::read_oracle(store, &bank, hook.clock).map(|v| v.spot.price < qi(0)).unwrap_or(false) {
+                    self.cov.probe("negative_price_rejected");
+                }
                 self.cov.eval(format!("probe|{kind}|{:?}|rej|{why}", e));
                 match e {
                     PriceErr::Oracle(OracleBad::Stale) => {
@@ -236,6 +239,12 @@ impl Monitor for C09 {
                                     let expect = pe.price_used.to_f64().unwrap_or(0.0);
                                     if pe.weight.is_zero() && !pe.is_liab {
                                         continue; // isolated / reduce-only / zeroed: recorded price is 0
+                                    }
+                                    if !pe.is_liab && recorded == 0.0 {
+                                        // the caller handed in a wrong / missing oracle account for
+                                        // this collateral: the program counted it as worth nothing,
+                                        // which is the conservative side
+                                        continue;
                                     }
                                     self.cov.probe("health_cache_prices_judged");
                                     let tol = reported.abs() * 1e-9 + 1e-12;
